@@ -27,7 +27,7 @@ type CheckDef struct {
 	Stubs       []string
 	Assumptions []string
 	MinCovers   []string // cover labels that must be reached at least once (vacuity guard)
-	TimeoutMS   int      // per-query solver time limit for the quick tier (0 = default 30 s)
+	TimeoutMS   int      // per-query solver time limit for the quick tier (0 = default 90 s)
 }
 
 var registry = map[string]*CheckDef{}
@@ -162,9 +162,9 @@ func runCheck(def *CheckDef, tier string, seed int64, repo string, workers int, 
 	if workers > len(jobs) {
 		workers = len(jobs)
 	}
-	timeout := 30000
+	timeout := 90000 // (queries take well under a second on an idle machine; the margin is for a loaded one)
 	cross := 0
-	checkBudget := 25 * time.Minute // whole-check wall-clock budget after which no further job is started
+	checkBudget := 45 * time.Minute // whole-check wall-clock budget after which no further job is started
 	if tier == "thorough" {
 		checkBudget = 5 * time.Hour
 	}
